@@ -71,10 +71,29 @@ def gen_design(r, cfg):
         ncell = r.randint(1, cfg.get("max_cells", 3))
         for ci in range(ncell):
             cid = _ident(r, cell_ids)
+            twin = None
+            if li > 0 and all_cells and r.random() < cfg.get("twin_cell_rate", 0.25):
+                # cell identifiers are unique per library only: a cell of the same identifier (perhaps in another
+                # letter case) as a cell of an earlier library, with ports of the same identifiers
+                t = r.choice([c for l_, c in all_cells if l_ != li] or [None])
+                if t is not None:
+                    cand = t["id"] if r.random() < 0.5 else t["id"].swapcase()
+                    if cand.lower() not in cell_ids:
+                        cell_ids.discard(cid.lower())
+                        cid = cand
+                        cell_ids.add(cid.lower())
+                        twin = t
             cell = {"id": cid, "name": _orig(r, cid, cell_names), "ports": [], "instances": [], "nets": []}
             pids, pnames = set(), set()
+            twin_pids = [p["id"] for p in twin["ports"]] if twin else []
             for _ in range(r.randint(0 if r.random() < 0.1 else 1, cfg.get("max_ports", 3))):
                 pid = _ident(r, pids)
+                if twin_pids and r.random() < 0.8:
+                    cand = twin_pids.pop(0)
+                    if cand.lower() not in pids:
+                        pids.discard(pid.lower())
+                        pid = cand
+                        pids.add(pid.lower())
                 width = r.choice([1, 1, 1, 2, 3, 4])
                 array = width > 1 or r.random() < 0.15
                 port = {"id": pid, "dir": r.choice(["INPUT", "OUTPUT", "INOUT"]), "width": width, "array": array}
